@@ -4,7 +4,13 @@
     Models: G = Core/GoSem.v (definitional interpreter of MiniGo, the fragment of Core/Syntax.v);
     Y = Core/Cfg.v (the CFG yaegi builds: start/tnext/fnext wiring of cfg.go for if/for/&&/||/
     break/continue, frame slots with the destination-slot shortcut, loopVarFor, and runCfg's loop).
-    The gap to the full property: functions, closures, composite data, switch, range, goto, labels
+    MiniGo, G and Y also contain switch statements (with and without a tag, init statement, several
+    expressions per clause, default anywhere, fallthrough, break): Y transcribes the clause loops of
+    switchStmt / switchIfStmt, the default swap of the pre-order pass and run.go _case; both models are run
+    against yaegi and compiled Go on generated programs and the clause wiring is tied to cfg.go
+    ([C01_wiring_matches_source]).  The simulation theorem [C01_core_partial] does not cover switch yet:
+    [wf] rejects it.  The deviations of yaegi on switch are the [C01_switch_*_refuted] theorems.
+    The gap to the full property: functions, closures, composite data, range, goto, labels
     are covered by the behavioural streams of the harness only (compiled Go as the oracle). *)
 From Verif Require Import Core.Syntax Core.GoSem Core.Cfg Core.Wf Core.Proofs Core.Wiring.
 
@@ -15,7 +21,8 @@ Definition C01_statement : Prop :=
 (** Every well-formed program (any nesting depth, any number of iterations) that terminates under
     Go's semantics -- normally or by a division by zero -- terminates under yaegi's CFG machine with
     the same printed output and the same ending.  [wf_program] is decidable; each of its clauses is
-    the negation of a known-finding region (for-init-only, loop-empty-body, loopvar-assign). *)
+    the negation of a known-finding region (for-init-only, loop-empty-body, loopvar-assign); the last
+    clause restricts the theorem to programs without switch statements (simulation not proved yet). *)
 Theorem C01_core_partial :
   forall p, wf_program p = true ->
   forall n out pk, GoSem.run n p = Done out pk -> exists m, Cfg.run m p = Done out pk.
@@ -62,13 +69,48 @@ Theorem C01_loop_empty_body_refuted :
 Proof. exact empty_body_refuted. Qed.
 Print Assumptions C01_loop_empty_body_refuted.
 
+(** Switch statements (models; the simulation theorem does not cover them yet, [wf] rejects them):
+    G and Y agree on a program with tagged and tagless switches, init, several case expressions,
+    fallthrough, break and continue inside clauses, nested in a loop. *)
+Theorem C01_switch_models_inhabited :
+  GoSem.run 1000 w_switch_example = Done [60; 61; 62; 64; 61; 64; 61; 62; 64; 60; 61; 62; 7; 3; 64]%Z false /\
+  Cfg.run 4000 w_switch_example = Done [60; 61; 62; 64; 61; 64; 61; 62; 64; 60; 61; 62; 7; 3; 64]%Z false.
+Proof. exact switch_example. Qed.
+Print Assumptions C01_switch_models_inhabited.
+
+(** switch { default: A; case x0 > 0: B; case true: }: Go runs B, yaegi swaps default with the last clause. *)
+Theorem C01_switch_default_order_refuted :
+  GoSem.run 100 w_default_order = Done [2]%Z false /\ Cfg.run 1000 w_default_order = Done [] false.
+Proof. exact switch_default_order_refuted. Qed.
+Print Assumptions C01_switch_default_order_refuted.
+
+(** switch x0 := 10; x0 % 6 { case 0: A; case 4: B }: Go runs B, yaegi never evaluates the tag and runs A. *)
+Theorem C01_switch_init_tag_refuted :
+  GoSem.run 100 w_init_tag = Done [2]%Z false /\ Cfg.run 1000 w_init_tag = Done [1]%Z false.
+Proof. exact switch_init_tag_refuted. Qed.
+Print Assumptions C01_switch_init_tag_refuted.
+
+(** case 1, x1 - 2:  /  case x0 > 5, x1 > 4:  only the first expression of a clause is wired. *)
+Theorem C01_switch_case_list_refuted :
+  GoSem.run 100 w_case_list = Done [10; 30]%Z false /\ Cfg.run 1000 w_case_list = Done [12; 32]%Z false.
+Proof. exact switch_case_list_refuted. Qed.
+Print Assumptions C01_switch_case_list_refuted.
+
+(** switch 1 / x0 { }: Go evaluates the tag (and panics), yaegi does not wire an empty switch. *)
+Theorem C01_switch_empty_refuted :
+  GoSem.run 100 w_switch_empty = Done [1]%Z true /\ Cfg.run 1000 w_switch_empty = Done [1; 2]%Z false.
+Proof. exact switch_empty_refuted. Qed.
+Print Assumptions C01_switch_empty_refuted.
+
 Theorem C01_statement_refuted : ~ C01_statement.
 Proof. exact statement_refuted. Qed.
 Print Assumptions C01_statement_refuted.
 
 (** The wiring tables of Y ([Cfg.wire_if], [Cfg.wire_for]: start / tnext / fnext of every if and for
-    form under every kind of condition) are the edge assignments of the post-order cases
-    ifStmt0..3 / forStmt0..7 of interp/cfg.go, as extracted from the source text on this run. *)
+    form under every kind of condition; [Cfg.wire_case], [Cfg.wire_caseif]: the edges of one case clause
+    under every assignment of the guards of the clause loops, and the edges of the switch node) are the
+    edge assignments of the post-order cases ifStmt0..3 / forStmt0..7 / switchStmt / switchIfStmt of
+    interp/cfg.go, as extracted from the source text on this run. *)
 Theorem C01_wiring_matches_source : wiring_ok = true.
 Proof. exact wiring_matches_source_lemma. Qed.
 Print Assumptions C01_wiring_matches_source.
